@@ -20,10 +20,18 @@ env = dict(os.environ, CARGO_NET_OFFLINE="true")
 PROPS = ["C19", "C12", "C04", "C01", "C05", "C03", "C14", "C10", "C18", "C15", "C06", "C11", "C08", "C16", "C13", "C09", "C07", "C20", "C02", "C17"]
 
 def sh(cmd, cwd, timeout=1800):
+    # own process group, so that a timeout also kills a hung test binary (a mutant can make the pinned tests loop)
+    import signal
+    p = subprocess.Popen(cmd, cwd=cwd, shell=True, stdout=subprocess.PIPE, stderr=subprocess.STDOUT, text=True, env=env, start_new_session=True)
     try:
-        p = subprocess.run(cmd, cwd=cwd, shell=True, capture_output=True, text=True, timeout=timeout, env=env)
-        return p.returncode, p.stdout + p.stderr
+        out, _ = p.communicate(timeout=timeout)
+        return p.returncode, out
     except subprocess.TimeoutExpired:
+        try:
+            os.killpg(p.pid, signal.SIGKILL)
+        except ProcessLookupError:
+            pass
+        p.wait()
         return 124, "timeout"
 
 def sources():
